@@ -5,6 +5,7 @@ from .. import histprop as H
 ID = 'C08'
 LEVEL = 'exploration'
 RULE = (
+    'Histories also contain a few rejected calls from the catalogue of C17 (failing loads, undeclared names, ...). '
     'H: Hypothesis histories on dd.autoref; the harness registry holds the '
     'only strong references to Function objects. Operations: constructions '
     '(var, add_expr, cube, constants, find_or_add, node-by-node), Function '
@@ -34,6 +35,9 @@ ALPHA = {
     'traverse': 4, 'copy_handle': 3, 'drop': 10, 'gc': 5, 'sift': 3,
     'reorder_to': 3, 'reorder_pairs': 1, 'declare': 1, 'find_or_add': 1,
     'configure': 1,
+    # a few rejected calls (e.g. a load that fails half-way): afterwards
+    # every count must still be in-edges + live handles
+    'bad': (3, [44, 65535, 65535]),
 }
 # find_or_add / configure-toggle are left out when reordering is on
 # (find_or_add: see KNOWN_FINDINGS C09 undecorated entry points)
@@ -65,10 +69,19 @@ def plan(tier, seed):
                           cfgs=on if re else off, reordering=re,
                           examples=1500 if tier == 'thorough' else 220,
                           min_len=8, max_len=45))
+    # every rejected call of the C17 catalogue after fixed prefixes,
+    # followed by the teardown (drop all handles, shutdown check)
+    for pi in range(3):
+        specs.append(dict(kind='catalogue', prefix=pi, api='autoref',
+                          positions=16 if tier == 'thorough' else 8,
+                          shutdown=True, seed=seed))
     return specs
 
 
 def run(spec, out):
+    if spec['kind'] == 'catalogue':
+        from . import c17
+        return c17.run_catalogue(spec, out)
     H.run_random(spec, out, ALPHA_RE if spec['reordering'] else ALPHA_OFF,
                  nontrivial, shutdown=True)
 
